@@ -9,7 +9,7 @@ from . import streambase as sb
 
 ID = 'C12'
 LEVEL = 'exploration'
-RULE = ('2-6 scanner instances per run: several instances of one reentrant scanner, and scanners generated with different prefixes (one of '
+RULE = ('2-6 scanner instances per run: several instances of one reentrant (cpp or c99 back end) scanner, and scanners generated with different prefixes (one of '
         'them non-reentrant) linked into one executable.  Instances are real pthreads; exactly one holds the baton, which is handed over at '
         'every simulator callback (read, allocation, action entry, yywrap, between top-level calls) according to the plan\'s seeded schedule, '
         'so one seed is one interleaving.  Oracle: each instance\'s projected event log (tokens, op results, reads, allocator calls, fatal '
@@ -23,7 +23,7 @@ TIERS = {
 }
 COMPONENTS = dict(sb.COMPONENTS)
 ASSUMPTIONS = ['a serialising scheduler cannot expose state shared only between two yield points; the free-running ThreadSanitizer mode covers that and is runtime monitoring, not simulation',
-               'C++ lexer objects and c99 scanners are not yet driven by the harness']
+               'C++ lexer objects are not yet driven by the harness']
 EXPECTED_PROBES = []
 CLASSES = {'isolation', 'ledger', 'link', 'tsan-race', 'sanitizer', 'crash', 'hang'}
 
@@ -32,19 +32,29 @@ def gen_scenarios(rng):
     """list of scenarios linked together"""
     mode = rng.choice(['same', 'same', 'multi'])
     if mode == 'same':
-        sc = scenario.gen_scenario(rng, want={'flavor': 'r'})
+        sc = scenario.gen_scenario(rng, want={'flavor': rng.choice(['r', 'r', 'c99'])})
         sc.name = 's0'
         return [sc]
     scs = []
     n = rng.randint(2, 3)
     for i in range(n):
-        fl = 'nr' if i == 0 and rng.random() < 0.7 else 'r'
+        fl = 'nr' if i == 0 and rng.random() < 0.7 else rng.choice(['r', 'r', 'c99'])
         sc = scenario.gen_scenario(rng, want={'flavor': fl})
         sc.name = 's%d' % i
         sc.prefix = 'px%d_' % i
         scs.append(sc)
-    if all(s.flavor == 'r' for s in scs) and rng.random() < 0.5:
+    if all(s.flavor != 'nr' for s in scs) and rng.random() < 0.5:
         scs[0].flavor = 'nr'
+    # two c99 scanners in one program clash on the skeleton's global constants
+    # (known finding K-c99-link-clash, kept visible by a directed probe): at most one here
+    seen = False
+    for sc in scs:
+        if sc.flavor == 'c99':
+            if seen:
+                sc.flavor = 'r'
+                sc.c99_catchall = False
+                sc.rules = [r for r in sc.rules]
+            seen = True
     return scs
 
 
@@ -230,7 +240,7 @@ def work(ctx, idx):
             case = Case(ID, {('s%d' % i): sc for i, sc in enumerate(scs)}, p, meta={'scn': idx, 'kind': 'baton', 'n': len(scs)})
             wr.findings.append(Finding(v.cls, v.detail, case, v.seq, 'scn %d %s' % (idx, k)))
     # ---- free-running supplement under ThreadSanitizer (same-scanner reentrant only)
-    if idx < cfg['tsan_scenarios'] and all(s.flavor == 'r' for s in scs):
+    if idx < cfg['tsan_scenarios'] and all(s.flavor != 'nr' for s in scs):
         bt = ctx.build_multi(scs, san=False, tsan=True) if len(scs) > 1 else ctx.build(scs[0], san=False, tsan=True)
         if bt.ok:
             for j in range(cfg['tsan_plans']):
@@ -285,3 +295,19 @@ def evaluate(ctx, case):
 
 
 SHRINKABLE = True
+
+
+def probes(ctx):
+    from simlib import rx
+    scs = []
+    for i in range(2):
+        sc = scenario.Scenario()
+        sc.rules = [scenario.Rule(pat=rx.cls(rx.ALL), conds=[])]
+        sc.flavor = 'c99'
+        sc.c99_catchall = True
+        sc.name = 'k%d' % i
+        sc.prefix = 'kk%d_' % i
+        scs.append(sc)
+    case = Case(ID, {('s%d' % i): sc for i, sc in enumerate(scs)}, Plan(), meta={'kind': 'link', 'n': 2, 'probe': 'two-c99-scanners'})
+    viols, _ = evaluate(ctx, case)
+    return [Finding('link', v.detail, case, -1, 'probe two-c99-scanners') for v in viols if v.cls == 'link'][:1]
